@@ -145,9 +145,10 @@ class PieceNode:
         """
         self.paths.append(pathnode)
 
-    def _find_matches(self, filemap: dict, paths: list, data: bytes) -> bool:
+    def _find_matches(self, filemap: dict, paths: list, data: bytes,
+                      chosen: tuple = ()) -> tuple:
         """
-        Gather relavent sections of the files in the list and check the hash.
+        Generate every combination of candidate files that verifies the piece.
 
         Parameters
         ----------
@@ -157,31 +158,27 @@ class PieceNode:
             list of pathnodes
         data : bytes
             raw file contents
+        chosen : tuple
+            candidate locations picked for the preceding pathnodes
 
-        Returns
-        -------
-        bool
-            success state
+        Yields
+        ------
+        tuple
+            one location per pathnode whose combined data hashes to the piece
         """
         if not paths:
-            piece_hash = sha1(data).digest()  # nosec
-            return piece_hash == self.piece
+            if sha1(data).digest() == self.piece:  # nosec
+                yield chosen
+            return
         pathnode = paths[0]
-        filename = pathnode.filename
-        if filename not in filemap:
-            return False  # pragma: nocover
-        for loc, size in filemap[filename]:
+        for loc, size in filemap.get(pathnode.filename, []):
             if size != len(pathnode):
                 continue
             partial = pathnode.get_part(loc)
-            val = self._find_matches(filemap, paths[1:], data + partial)
-            if val:
-                dest_path = os.path.join(self.dest, pathnode.full)
-                copypath(loc, dest_path)
-                return val
-        return False
+            yield from self._find_matches(filemap, paths[1:], data + partial,
+                                          chosen + (loc, ))
 
-    def find_matches(self, filemap: dict, dest: str) -> bool:
+    def find_matches(self, filemap: dict, dest: str) -> list:
         """
         Find the matching files for each path in the node.
 
@@ -194,11 +191,11 @@ class PieceNode:
 
         Returns
         -------
-        bool
-            success status
+        list
+            every combination of candidate locations that verifies the piece
         """
         self.dest = dest
-        self.result = self._find_matches(filemap, self.paths[:], bytes())
+        self.result = list(self._find_matches(filemap, self.paths[:], bytes()))
         return self.result
 
 
@@ -365,19 +362,28 @@ class Metadata(CbMixin, ProgMixin):
             target destination path
         """
         self._map_pieces()
+        # candidates of each file that verified in every piece which could be
+        # verified at all: a file is only taken from a location that is
+        # consistent with all of the pieces it is part of.
+        verified = {}
+        for piece_node in self.piece_nodes:
+            matches = piece_node.find_matches(filemap, dest)
+            self._update()
+            for i, pathnode in enumerate(piece_node.paths):
+                locs = [match[i] for match in matches]
+                if not locs:
+                    continue
+                known = verified.get(pathnode.full, locs)
+                verified[pathnode.full] = [loc for loc in known if loc in locs]
         copied = []
         for piece_node in self.piece_nodes:
-            paths = piece_node.paths
-            if len(paths) == 1 and paths[0].full in copied:
-                self._update()
-                continue
-            if piece_node.find_matches(filemap, dest):
-                for pathnode in paths:
-                    if pathnode.full not in copied:
-                        copied.append(pathnode.full)
-                        dest_path = os.path.join(dest, pathnode.full)
-                        self._update()
-                        self.cb(pathnode.path, dest_path, self.num_pieces)
+            for pathnode in piece_node.paths:
+                if pathnode.full in copied or not verified.get(pathnode.full):
+                    continue
+                copied.append(pathnode.full)
+                dest_path = os.path.join(dest, pathnode.full)
+                copypath(verified[pathnode.full][0], dest_path)
+                self.cb(pathnode.path, dest_path, self.num_pieces)
 
     def _match_v2(self, filemap: dict, dest: str):
         """
